@@ -272,4 +272,10 @@ def parts(tier):
 
 
 if __name__ == '__main__':
+    # translation validation of the stub kernel against the real one (fixed histories); disagreement = harness error
+    sys.path.insert(0, os.path.join(os.path.dirname(os.path.dirname(os.path.abspath(__file__))), 'tools'))
+    import validate_stubkernel
+    if validate_stubkernel.main() != 0:
+        print('HARNESS-ERROR stub kernel disagrees with the real kernel')
+        sys.exit(3)
     sys.exit(run_property(sys.modules[__name__]))
